@@ -5,6 +5,12 @@ proof:  lean/AdeptProofs/Props/C02.lean (adjointness of the two sweeps for every
 tie:    hand-written model AdeptModel/{Tape,StackProto}.lean <-> Stack::compute_*/jacobian_* ; exact comparison of
         the whole tape and of every pass / Jacobian result on integer tapes, over several block-width builds
 oracle: product of statement matrices in Python big integers, computed from the implementation's own tape dump
+binary64: which of the equalities hold operation for operation is part of the theorems (C02_*_lawfree, refutations in
+        AdeptProofs/Refute/Tape.lean).  Recordings with non-integer multipliers (tapecommon.FGen) are run on every build; every
+        Jacobian cell and every pass result is compared as a bit pattern with a Python transcription of the C++ loops (independent
+        oracle) and with the Lean model run on Float; forward Jacobian column = tangent-linear pass and forward Jacobian identical
+        across all block-width builds (always), reverse Jacobian row = adjoint pass and identical across builds (finite tapes, or
+        W = 1), block-flag witness with an infinite multiplier (reverse W >= 2: NaN, adjoint pass: 1) observed as predicted.
 """
 import os, json
 from concurrent.futures import ThreadPoolExecutor
@@ -13,7 +19,12 @@ import tapecommon as tc
 
 LEVEL = "proof"
 NS = "Adept.Tape."
-REQUIRED = ["C02_adjoint_tape", "C02_jac_fwd_eq_rev", "C02_blocked_eq_unblocked_fwd", "C02_blocked_eq_unblocked_rev"]
+REQUIRED = ["C02_adjoint_tape", "C02_jac_fwd_eq_rev", "C02_blocked_eq_unblocked_fwd", "C02_blocked_eq_unblocked_rev",
+            "C02_jac_col_eq_tangent_pass_lawfree", "C02_blocked_eq_unblocked_fwd_lawfree", "C02_jac_row_eq_adjoint_pass_W1_lawfree",
+            "C02_jac_row_eq_adjoint_pass_of_skip", "C02_jac_row_eq_adjoint_pass_of_good", "C02_blocked_eq_unblocked_rev_of_skip", "C02_rev_blockwise_eq_lanewise",
+            "C02_refute_fwd_eq_rev_lawfree", "C02_refute_rev_row_lawfree", "C02_refute_rev_blocked_lawfree"]
+# idle OpenMP threads sleep instead of spinning (shared machine; semantics unchanged)
+OMP_ENV = {"OMP_WAIT_POLICY": "passive", "GOMP_SPINCOUNT": "0", "OMP_DYNAMIC": "false"}
 
 
 def cpu_flags():
@@ -232,14 +243,222 @@ def run_cases(ctx, exe, label, cases, env=None):
     ctx.cov["traces_validated_against_impl"] += len(cases)
 
 
+# ------------------------------------------------------------------ binary64 cases (the same text runs on every build)
+F_SIZES = [1, 2, 3, 4, 5, 6, 7, 8, 9, 11, 13, 17]
+
+
+def gen_fcase(rng, witness=False):
+    """one binary64 case -> (ops, meta); the first line `cfg @W 0 1` gets the block width of the build it is run on"""
+    nonfinite = (not witness) and rng.random() < 0.15
+    g = tc.FGen(rng, nonfinite=nonfinite)
+    g.emit("cfg @W 0 1")
+    if witness:
+        # the block-flag witness of AdeptProofs/Refute/Tape.lean (infTape) on doubles: y1 = 1*x, y2 = Inf*x, rows y1, y2
+        for op in ("new 0 0x1.0p+0", "new 1 0x0.0p+0", "new 2 0x0.0p+0", "nr", "adep 1 0 0x1.0p+0", "adep 2 0 inf"):
+            g.emit(op)
+        g.live = [0, 1, 2]; g.nxt = 3
+        indep, dep = [0], [1, 2]
+    else:
+        for _ in range(rng.randint(2, 6)):
+            g.new()
+        if rng.random() < 0.3:
+            g.emit("threads %d" % rng.randint(2, 6))
+        g.emit("nr")
+        g.program(rng.randint(2, 20), nfan=rng.choice([1, 1, 2]))
+        indep, dep = g.lists(rng.choice(F_SIZES), rng.choice(F_SIZES))
+    g.emit("hex 1")
+    g.emit("tape")
+    n, m = len(indep), len(dep)
+    for k in indep:
+        g.emit("indep %d" % k)
+    for k in dep:
+        g.emit("dep %d" % k)
+    q = []          # (kind, op index, info)
+    for mode in ("fwd", "rev", "auto"):
+        q.append(("jac", len(g.ops), (mode, 1, 0, m * n))); g.emit("jac %s ptr 1 0 %d" % (mode, m * n))
+    k = n + rng.randint(0, 2)
+    for mode in ("fwd", "rev"):
+        q.append(("jac", len(g.ops), (mode, k, 1, m * k))); g.emit("jac %s ptr %d 1 %d" % (mode, k, m * k))
+    for j in rng.sample(range(n), min(n, 3)):
+        g.emit("clrg"); g.emit("seed %d 1" % indep[j]); g.emit("fwd")
+        for i in rng.sample(range(m), min(m, 4)):
+            q.append(("col", len(g.ops), (i, j))); g.emit("get %d" % dep[i])
+    for i in (range(m) if witness else rng.sample(range(m), min(m, 3))):
+        g.emit("clrg"); g.emit("seed %d 1" % dep[i]); g.emit("rev")
+        for j in rng.sample(range(n), min(n, 4)):
+            q.append(("row", len(g.ops), (i, j))); g.emit("get %d" % indep[j])
+    g.emit("clrg")
+    g.emit("tape")
+    g.emit("hex 0")
+    return g.ops, {"fqueries": q, "indep": indep, "dep": dep, "n": n, "m": m, "witness": witness}
+
+
+def run_fcases(ctx, exe, label, W, fcases, across):
+    """binary64 cases on one build.  `across[case number]` collects the forward / reverse Jacobian lines of every build."""
+    cases = [([o.replace("@W", str(W)) for o in ops], meta) for ops, meta in fcases]
+    text = "".join("\n".join(ops) + "\n" for ops, _ in cases)
+    impl, rc, err = vcheck.run_impl(exe, [], text, env=OMP_ENV)
+    pos = 0
+    mtext, done = [], []
+    N_ = ctx.notes
+    for ci, (ops, meta) in enumerate(cases):
+        il = impl[pos:pos + len(ops)]
+        pos += len(ops)
+        if len(il) < len(ops):
+            ctx.violation("implementation stopped on a binary64 tape case (%s): rc=%s %s" % (label, rc, vcheck.san_summary(err)),
+                          {"kind": "crash", "build": label, "ops": ops, "stderr": err[-3000:], "impl": il})
+            break
+        try:
+            idx = tc.handle_indices(ops, il)
+            ti = ops.index("tape")
+            tape = tc.parse_ftape(il[ti])
+            xi = [idx[k] for k in meta["indep"]]; yi = [idx[k] for k in meta["dep"]]
+        except Exception as e:
+            ctx.violation("unparsable output on a binary64 case (%s): %r" % (label, e), {"kind": "oracle", "build": label, "ops": ops, "impl": il})
+            continue
+        n, m = meta["n"], meta["m"]
+        N = 1 + max([0] + xi + yi + [l for l, _ in tape] + [i for _, o in tape for _, i in o])
+        finite = not tc.tape_nonfinite(tape)
+        verdict = None
+        Jf = Jr = None
+        lines = ["ftape %d %d |%s" % (W, N, il[ti].split("|", 1)[1] if "|" in il[ti] else ""),
+                 "findep " + " ".join(map(str, xi)), "fdep " + " ".join(map(str, yi))]
+        where = []
+        passes = {}
+        th = 1
+        for o in ops:
+            if o.startswith("threads "):
+                th = int(o.split()[1])
+        for kind, oi, info in meta["fqueries"]:
+            line = il[oi]
+            if kind == "jac":
+                mode, dO, iO, nc = info
+                fwd = mode == "fwd" or (mode == "auto" and n <= m)
+                exp = tc.fbits_line("P", tc.fjac_oracle(tape, N, W, xi, yi, fwd, dO, iO, nc))
+                if line != exp and verdict is None:
+                    pa, pb = line.split(), exp.split()
+                    d = [i for i in range(min(len(pa), len(pb))) if pa[i] != pb[i]]
+                    verdict = ("binary64: %s differs in the bits of cell %s from the operation-for-operation transcription of "
+                               "jacobian.cpp: %s vs %s" % (ops[oi], d[0] - 1 if d else "?", pa[d[0]] if d else line[:80], pb[d[0]] if d else exp[:80]))
+                if (dO, iO) == (1, 0):
+                    cells = line.split()[1:]
+                    if mode == "fwd":
+                        Jf = cells
+                    elif mode == "rev":
+                        Jr = cells
+                where.append((oi, len(lines)))
+                lines.append("fjac %s %d %d %d %d" % (mode, th, dO, iO, nc))
+            else:
+                i, j = info
+                src, dst = (xi[j], yi[i]) if kind == "col" else (yi[i], xi[j])
+                key = (kind, src)
+                if key not in passes:
+                    g = [0.0] * N; g[src] = 1.0
+                    passes[key] = tc.ftape_fwd(tape, g) if kind == "col" else tc.ftape_rev(tape, g)
+                exp = "g " + tc.f2bits(passes[key][dst])
+                if line != exp and verdict is None:
+                    verdict = ("binary64: unit-seeded %s pass (%s) gives %s, the operation-for-operation transcription of Stack.cpp gives %s"
+                               % ("forward" if kind == "col" else "reverse", ops[oi], line, exp))
+                J = Jf if kind == "col" else Jr
+                if J is not None and len(J) == m * n and verdict is None:
+                    cell = J[i + j * m]
+                    same = line == "g " + cell
+                    if kind == "col" and not same:
+                        verdict = ("binary64: forward Jacobian entry (%d,%d) = %s but the tangent-linear pass seeded with the unit vector "
+                                   "gives %s (%s): not the same operations" % (i, j, cell, line, ops[oi]))
+                    if kind == "row":
+                        N_["f_rows_compared_with_adjoint_pass"] = N_.get("f_rows_compared_with_adjoint_pass", 0) + 1
+                        if not same:
+                            if finite or W == 1:
+                                verdict = ("binary64: reverse Jacobian entry (%d,%d) = %s but the adjoint pass seeded with the unit vector "
+                                           "gives %s (%s) on a recording with finite multipliers%s" % (i, j, cell, line, ops[oi], " (W = 1)" if W == 1 else ""))
+                            else:
+                                N_["f_rows_differing_from_adjoint_pass_nonfinite"] = N_.get("f_rows_differing_from_adjoint_pass_nonfinite", 0) + 1
+                                if meta["witness"]:
+                                    N_.setdefault("block_flag_witness", {})[label] = "reverse Jacobian dy1/dx = %s, compute_adjoint gives %s" % (cell, line)
+                where.append((oi, len(lines)))
+                lines.append("fsweep %s %d:3ff0000000000000 | %d" % ("fwd" if kind == "col" else "rev", src, dst))
+        tl = [i for i, o in enumerate(ops) if o == "tape"]
+        if verdict is None and il[tl[0]] != il[tl[-1]]:
+            verdict = "the recording changed during the Jacobian computations / passes (binary64 case)"
+        if Jf is not None and Jr is not None and len(Jf) == len(Jr):
+            N_["f_cells_fwd_vs_rev"] = N_.get("f_cells_fwd_vs_rev", 0) + len(Jf)
+            N_["f_cells_fwd_vs_rev_bits_differ"] = N_.get("f_cells_fwd_vs_rev_bits_differ", 0) + sum(1 for a, b in zip(Jf, Jr) if a != b)
+        N_["f_cases"] = N_.get("f_cases", 0) + 1
+        N_["f_cases_nonfinite_tape"] = N_.get("f_cases_nonfinite_tape", 0) + (0 if finite else 1)
+        tc.mult_stats(tape, ctx.notes)
+        hist = N_.setdefault("f_operands_per_statement", {})
+        for _, o in tape:
+            kk = str(len(o)) if len(o) < 8 else "8+"
+            hist[kk] = hist.get(kk, 0) + 1
+        ctx.count_case((label, "f", tuple(ops)), nontrivial=n > 1 or m > 1,
+                       sample={"build": label, "binary64": True, "n": n, "m": m, "tape": il[ti][:200]})
+        if verdict is not None:
+            ctx.nbad += 1
+            if ctx.nbad <= 2:
+                ctx.violation("%s [build %s]" % (verdict, label), {"kind": "oracle", "build": label, "ops": ops, "impl": il, "message": verdict})
+            continue
+        across.setdefault(ci, []).append((label, W, il[ti], Jf, Jr, finite, ops))
+        base = len(mtext)
+        mtext += lines
+        done.append((ops, il, [(oi, base + mi) for oi, mi in where]))
+    if done:
+        ml = vcheck.run_model("tape", "\n".join(mtext) + "\n")
+        for ops, il, where in done:
+            for oi, mi in where:
+                got = ml[mi] if mi < len(ml) else "<missing>"
+                if got != il[oi]:
+                    ctx.cov["disagreements_checked"] += 1
+                    if len(ctx.pending) < 2:
+                        ctx.pending.append({"kind": "correspondence", "correspondence": "AdeptModel/Tape.lean on Float (fwd, revZ, jacFwdSerial, jacRevSerialB) <-> Stack.cpp / jacobian.cpp",
+                                            "build": label, "ops": ops, "first_difference": {"op": ops[oi], "impl": il[oi][:400], "model": got[:400],
+                                                                                             "model_input": mtext[mi]}})
+                    break
+    ctx.cov["traces_validated_against_impl"] += len(done)
+
+
+def judge_across(ctx, across):
+    """blocked = unblocked on doubles: the same recording gives the same forward Jacobian bits on every build (always) and the
+    same reverse Jacobian bits (finite multipliers)"""
+    for ci, rows in across.items():
+        if len(rows) < 2:
+            continue
+        l0, W0, t0, Jf0, Jr0, fin0, ops0 = rows[0]
+        for label, W, t, Jf, Jr, fin, ops in rows[1:]:
+            msg = None
+            if t != t0:
+                msg = "the same program recorded different tapes on builds %s and %s" % (l0, label)
+            elif Jf != Jf0:
+                d = [i for i in range(min(len(Jf), len(Jf0))) if Jf[i] != Jf0[i]]
+                msg = ("binary64: forward Jacobian of the same recording differs between block widths %d (%s) and %d (%s) in cell %s: %s vs %s"
+                       % (W0, l0, W, label, d[0] if d else "?", Jf0[d[0]] if d else "", Jf[d[0]] if d else ""))
+            elif Jr != Jr0:
+                if fin:
+                    d = [i for i in range(min(len(Jr), len(Jr0))) if Jr[i] != Jr0[i]]
+                    msg = ("binary64: reverse Jacobian of the same recording (finite multipliers) differs between block widths %d (%s) and "
+                           "%d (%s) in cell %s: %s vs %s" % (W0, l0, W, label, d[0] if d else "?", Jr0[d[0]] if d else "", Jr[d[0]] if d else ""))
+                else:
+                    ctx.notes["f_reverse_differs_across_widths_nonfinite"] = ctx.notes.get("f_reverse_differs_across_widths_nonfinite", 0) + 1
+            ctx.notes["f_cross_build_comparisons"] = ctx.notes.get("f_cross_build_comparisons", 0) + 1
+            if msg:
+                ctx.nbad += 1
+                if ctx.nbad <= 2:
+                    ctx.violation("%s" % msg, {"kind": "oracle", "build": label, "ops": ops, "message": msg})
+                break
+
+
 def run(ctx, replay):
     thms = [NS + t for t in vcheck.prop_theorems("AdeptProofs/Props/C02.lean", "C02_")]
-    fails = vcheck.lean_gate(ctx, ["AdeptProofs.Props.C02"], thms, required=[NS + r for r in REQUIRED])
+    thms += [NS + t for t in vcheck.prop_theorems("AdeptProofs/Refute/Tape.lean", "C02_refute")]
+    fails = vcheck.lean_gate(ctx, ["AdeptProofs.Props.C02", "AdeptProofs.Refute.Tape"], thms, required=[NS + r for r in REQUIRED])
     vs = variants(ctx.tier)
-    with ThreadPoolExecutor(max_workers=len(vs)) as ex:
+    with ThreadPoolExecutor(max_workers=min(len(vs), 4)) as ex:
         exes = list(ex.map(lambda v: tc.build(**v[1]), vs))
     ctx.pending, ctx.nbad = [], 0
     ncase = 400 if ctx.tier == "quick" else 1500
+    nfcase = 150 if ctx.tier == "quick" else 400
+    fcases = [] if replay else [gen_fcase(ctx.rng, witness=True)] + [gen_fcase(ctx.rng) for _ in range(nfcase)]
+    across = {}
     for (label, kw), exe in zip(vs, exes):
         W = width(kw)
         ctx.curW = W
@@ -250,16 +469,26 @@ def run(ctx, replay):
             print("\n".join("%-40s | %s" % (o, l) for o, l in zip(ops, il)))
             continue
         cases = [gen_case(ctx.rng, W) for _ in range(ncase)]
-        run_cases(ctx, exe, label, cases)
+        run_cases(ctx, exe, label, cases, env=OMP_ENV)
+        run_fcases(ctx, exe, label, W, fcases, across)
+    judge_across(ctx, across)
     ctx.cov["rule"] = ("random straight-line integer programs (expression trees of height<=2 over + - * neg, copies, compound ops, "
                        "add/append_derivative_dependence, new/delete of actives in non-LIFO order), then independent/dependent lists with "
                        "repeats and intermediates, sizes from {1,2,W-1,W,W+1,2W-1,2W,2W+1,3W+2}; every Jacobian form (3 modes x returned "
                        "Matrix / raw pointer with 4 offset pairs / row-major, column-major, transposed, strided, wrongly sized Matrix "
                        "argument), unit-seeded forward and reverse passes, duality; per build variant. non-trivial: m>1 or n>1; "
-                       "distinct: different (build, op list)")
+                       "distinct: different (build, op list).  binary64 cases: the SAME random programs over non-integer doubles "
+                       "(tapecommon.FGen: uniform(-2,2), non-dyadic decimals, 10^+-8, 1e+-160/DBL_MAX/denormals, signed zeros, +-1; 15% "
+                       "also Inf/NaN; statements with 0..12 operands, repeated operands, cancelling pairs, lhs among its operands, "
+                       "fan-in/fan-out statements) run on every build, m,n from {1..9,11,13,17}; forward/reverse/auto raw-pointer "
+                       "Jacobians in two layouts and unit-seeded forward/reverse passes, every number compared as a bit pattern (see "
+                       "notes f_*); + the Inf-multiplier witness of the block-wide zero flag")
     ctx.notes["builds"] = [l for l, _ in vs]
-    ctx.assumptions += ["exact regime only: integer-valued doubles, all intermediates < 2^50 (guarded per case, inexact cases skipped and counted)",
-                        "theorems are over commutative rings; rounding differences between forward and reverse on non-integer tapes are not covered"]
+    ctx.assumptions += ["integer cases: exact regime only (integer-valued doubles, all intermediates < 2^50; guarded per case, inexact cases skipped and counted)",
+                        "forward = reverse is a theorem over commutative rings only (refuted law-free, Refute/Tape.lean); on doubles the check "
+                        "counts the cells whose bits differ (notes f_cells_fwd_vs_rev_bits_differ) and judges each routine against its own "
+                        "operation-for-operation transcription",
+                        "IEEE binary64 + and * of the Lean runtime, of CPython and of the C++ build (-ffp-contract=off, no fast-math) are the same functions"]
     if not ctx.violations:
         for p in ctx.pending[:1]:
             ctx.violation("model and implementation disagree on a tape case (build %s) but every Jacobian/pass result matches the "
